@@ -172,6 +172,18 @@ def run_registry(pid, spec, tier, seed, replay=None):
     return {"violations": viols, "crashes": crashes, "coverage": cov, "trace_files": traces}
 
 
+def nohooks_half(scenarios):
+    """every second scenario that holds nothing at a gate runs without any hook installed: the hooks take locks of the
+    harness and thereby order the library's goroutines for the race detector (DESIGN.md section 15, round 5)"""
+    k = 0
+    for s in scenarios:
+        if not s["cfg"].get("gates") and not s["cfg"].get("hooks"):
+            k += 1
+            if k % 2 == 0:
+                s["cfg"] = dict(s["cfg"], hooks="off")
+    return scenarios
+
+
 def run_c15(pid, spec, tier, seed, replay=None):
     """C15: free-running concurrent programs (real parallelism, random delays at yield points, frames delivered at
     once) recorded and validated by the trace specification in monitor mode; the harness and the library are built
@@ -180,11 +192,12 @@ def run_c15(pid, spec, tier, seed, replay=None):
     if replay:
         scenarios = [json.load(open(os.path.join(replay, "script.json")))["scenario"]] * 5
     else:
-        scenarios = spec[tier](seed)
+        scenarios = nohooks_half(spec[tier](seed))
     d, traces, crashes = orch.execute(binary, scenarios, "%s-%s" % (pid, tier), timeout=1500)
     viols, lines, states = orch.validate(traces)
     n, distinct = orch.count_traces(traces)
     cov = {"states": states, "transitions": states, "traces_validated_against_impl": n, "evaluations": n, "distinct_nontrivial": distinct,
+           "without_hooks": sum(1 for s in scenarios if s["cfg"].get("hooks") == "off"),
            "rule": "one evaluation = one generated concurrent program (4-16 RPCs of mixed shapes, one sender and one receiver goroutine per RPC end, "
                    "Header/Trailer readers, optional Close/cancel/failure at a random event count) executed free-running under the race detector and "
                    "validated against spec/TunnelMon.tla; distinct by hash of the recorded (frame, result) sequence",
